@@ -772,6 +772,7 @@ class ExpectationPropagation:
         reallocate_unphased(  # correct mutation counts for unphased singletons
             likelihoods,
             self.mutation_phase,
+            self.mutation_edges,
             self.mutation_blocks,
             self.block_edges,
         )
